@@ -386,6 +386,7 @@ void COTPdoTx(CO_TPDO *pdo)
             }
         } else {
             COTpdoReadData(&frm, frm.DLC, pdosz, pdo->Map[num]);
+            frm.DLC += pdosz;
         }
     }
 
@@ -641,6 +642,7 @@ void CORPdoWrite(CO_RPDO *pdo, CO_IF_FRM *frm)
                 }
             } else {
                 CORpdoWriteData(frm, dlc, pdosz, obj);
+                dlc += pdosz;
             }
         } else {
             /* dummy mapping: skip the mapped bytes */
